@@ -24,7 +24,7 @@
     [perr_message e] is the text of parser/errors.go (line number and raw line quoted).
     All statements hold for every [NM : Num] and arbitrary bytes [data]. *)
 From HP Require Import Base.Bytes Base.Utf8 Base.Num Model.Scanner Model.Parser Model.Elements Model.Resolver
-  Model.Dates Model.Tree Model.Writer Model.Reporters Model.Cli.
+  Model.Dates Model.Tree Model.Writer Model.Regex Model.Reporters Model.Cli.
 From HP Require Import Model.Syntax.
 From HP Require Import Proofs.MalformedBase Proofs.MalformedLint Proofs.MalformedBook Proofs.MalformedLog
   Proofs.MalformedRun Proofs.MalformedLines Proofs.MalformedSyntax.
@@ -225,13 +225,14 @@ Theorem first_error_reported_log :
 Proof. exact MalformedLog.run_db_log_first_error_log. Qed.
 Print Assumptions first_error_reported_log.
 
-(** reg, bal, report totals, report unresolved *)
+(** reg, bal, report totals, report unresolved; for [reg -f PATTERN] the pattern is any regular
+    expression that compiles ([pattern_ok], Model/Regex.v) *)
 Theorem first_error_reported_log_reg_bal_totals_unresolved :
   forall (NM : Num) (w : world) (i : invocation) (op : options) (odb : opened) (d : list (bytes * elements NM))
          (data : bytes) (pre : list (event NM)) (e : perr) (post : list (event NM)),
   load w i = inr op ->
   In (i_cmd i) [CReg; CBal; CTotals; CUnresolved] ->
-  (i_cmd i = CReg -> plain_pattern (rc_single_food (op_rc op)) = true
+  (i_cmd i = CReg -> pattern_ok (rc_single_food (op_rc op)) = true
                      /\ (rc_single_element (op_rc op) = [] \/ rc_group_food (op_rc op) = true)) ->
   open_file w (op_db op) = Some odb ->
   resolved_db NM w op odb = inr d ->
